@@ -412,13 +412,27 @@ func C07(tier string) int {
 	c := report.NewCollector("C07")
 	cat := gen.Catalogue(tier)
 	var ents []*gen.Entry
+	ncons := 0
 	for i := range cat {
 		if cat[i].Family == "struct" {
 			ents = append(ents, &cat[i])
+		} else if cat[i].Family == "cons" {
+			// one-constraint bodies: body completion around values of every constraint kind
+			ncons++
+			if tier == "thorough" || ncons%9 == 0 {
+				ents = append(ents, &cat[i])
+			}
 		}
 	}
 	explore.ParallelEach(len(ents), c, explore.Deadline(tier), func(i int, l *report.Local) {
-		c07Entry(ents[i], ents[i].Seeds, c, l, true)
+		seeds := ents[i].Seeds
+		if ents[i].Family == "cons" {
+			for _, v := range []string{`"foo"`, `decl.foo`, `{ foo = "x" }`} {
+				cs := gen.ConsSeeds(v)
+				seeds = append(seeds, cs[3], cs[4])
+			}
+		}
+		c07Entry(ents[i], seeds, c, l, ents[i].Family == "struct")
 	})
 	if len(ents) > 0 {
 		ps := c07Probes(ents[0], ents[0].Seeds[0])
